@@ -112,7 +112,7 @@ class Walker(object):
             The sampled object.
         """
         choice_from_table = random.choice(self._table)
-        if random.uniform(0.0, self._mean_rate) <= choice_from_table[0].rate:
+        if random.uniform(0.0, self._mean_rate) < choice_from_table[0].rate:
             return choice_from_table[0].item
         else:
             return choice_from_table[1].item
